@@ -91,8 +91,8 @@ class RelFacts:
         return out
 
     def facts_in(self, b):
-        if b.path in self._in:
-            return self._in[b.path]
+        if (b.path, hasattr(b, "base")) in self._in:
+            return self._in[(b.path, hasattr(b, "base"))]
         IN = {0: frozenset()}
         work = [0]
         while work:
@@ -128,7 +128,7 @@ class RelFacts:
                 if merged != old:
                     IN[s2] = merged
                     work.append(s2)
-        self._in[b.path] = IN
+        self._in[(b.path, hasattr(b, "base"))] = IN
         return IN
 
     def holds(self, b, bb, a, op, c):
